@@ -37,6 +37,8 @@ inductive Kind where
   | defUnmatched | defExpandUnmatched | requiredMissing | notUnique | groupEmpty
   | tagGroupTag | topLevelTag | multipleTopTags | tagRepeated | groupRepeated
   | durationOtherTags | durationWrongGroups | onsetNoDef
+  | defValueMissing | defValueExtra | defExpandInvalid | defExpandValueMissing | defExpandValueExtra
+  | onsetTooManyDefs | onsetWrongNumberGroups | onsetTagOutsideGroup | onsetDefUnmatched | onsetPlaceholderWrong
 deriving DecidableEq, Repr, Inhabited
 
 /-- value of the constant (what the harness records as `_kind`) -/
@@ -59,6 +61,16 @@ def Kind.name : Kind → Str
   | .tagRepeated => kind_HED_TAG_REPEATED | .groupRepeated => kind_HED_TAG_REPEATED_GROUP
   | .durationOtherTags => kind_DURATION_HAS_OTHER_TAGS | .durationWrongGroups => kind_DURATION_WRONG_NUMBER_GROUPS
   | .onsetNoDef => kind_ONSET_NO_DEF_TAG_FOUND
+  | .defValueMissing => kind_HED_DEF_VALUE_MISSING
+  | .defValueExtra => kind_HED_DEF_VALUE_EXTRA
+  | .defExpandInvalid => kind_HED_DEF_EXPAND_INVALID
+  | .defExpandValueMissing => kind_HED_DEF_EXPAND_VALUE_MISSING
+  | .defExpandValueExtra => kind_HED_DEF_EXPAND_VALUE_EXTRA
+  | .onsetTooManyDefs => kind_ONSET_TOO_MANY_DEFS
+  | .onsetWrongNumberGroups => kind_ONSET_WRONG_NUMBER_GROUPS
+  | .onsetTagOutsideGroup => kind_ONSET_TAG_OUTSIDE_OF_GROUP
+  | .onsetDefUnmatched => kind_ONSET_DEF_UNMATCHED
+  | .onsetPlaceholderWrong => kind_ONSET_PLACEHOLDER_WRONG
 
 /-- published code (`actual_code=` of the decorator) -/
 def Kind.code : Kind → Str
@@ -80,6 +92,16 @@ def Kind.code : Kind → Str
   | .tagRepeated => code_HED_TAG_REPEATED | .groupRepeated => code_HED_TAG_REPEATED_GROUP
   | .durationOtherTags => code_DURATION_HAS_OTHER_TAGS | .durationWrongGroups => code_DURATION_WRONG_NUMBER_GROUPS
   | .onsetNoDef => code_ONSET_NO_DEF_TAG_FOUND
+  | .defValueMissing => code_HED_DEF_VALUE_MISSING
+  | .defValueExtra => code_HED_DEF_VALUE_EXTRA
+  | .defExpandInvalid => code_HED_DEF_EXPAND_INVALID
+  | .defExpandValueMissing => code_HED_DEF_EXPAND_VALUE_MISSING
+  | .defExpandValueExtra => code_HED_DEF_EXPAND_VALUE_EXTRA
+  | .onsetTooManyDefs => code_ONSET_TOO_MANY_DEFS
+  | .onsetWrongNumberGroups => code_ONSET_WRONG_NUMBER_GROUPS
+  | .onsetTagOutsideGroup => code_ONSET_TAG_OUTSIDE_OF_GROUP
+  | .onsetDefUnmatched => code_ONSET_DEF_UNMATCHED
+  | .onsetPlaceholderWrong => code_ONSET_PLACEHOLDER_WRONG
 
 /-- default severity of the decorator -/
 def Kind.sev : Kind → Nat
@@ -101,6 +123,16 @@ def Kind.sev : Kind → Nat
   | .tagRepeated => sev_HED_TAG_REPEATED | .groupRepeated => sev_HED_TAG_REPEATED_GROUP
   | .durationOtherTags => sev_DURATION_HAS_OTHER_TAGS | .durationWrongGroups => sev_DURATION_WRONG_NUMBER_GROUPS
   | .onsetNoDef => sev_ONSET_NO_DEF_TAG_FOUND
+  | .defValueMissing => sev_HED_DEF_VALUE_MISSING
+  | .defValueExtra => sev_HED_DEF_VALUE_EXTRA
+  | .defExpandInvalid => sev_HED_DEF_EXPAND_INVALID
+  | .defExpandValueMissing => sev_HED_DEF_EXPAND_VALUE_MISSING
+  | .defExpandValueExtra => sev_HED_DEF_EXPAND_VALUE_EXTRA
+  | .onsetTooManyDefs => sev_ONSET_TOO_MANY_DEFS
+  | .onsetWrongNumberGroups => sev_ONSET_WRONG_NUMBER_GROUPS
+  | .onsetTagOutsideGroup => sev_ONSET_TAG_OUTSIDE_OF_GROUP
+  | .onsetDefUnmatched => sev_ONSET_DEF_UNMATCHED
+  | .onsetPlaceholderWrong => sev_ONSET_PLACEHOLDER_WRONG
 
 /-- `has_sub_tag=` of the decorator (the issue carries `index_in_tag`, `index_in_tag_end`) -/
 def Kind.hasSub : Kind → Bool
@@ -122,6 +154,16 @@ def Kind.hasSub : Kind → Bool
   | .tagRepeated => sub_HED_TAG_REPEATED | .groupRepeated => sub_HED_TAG_REPEATED_GROUP
   | .durationOtherTags => sub_DURATION_HAS_OTHER_TAGS | .durationWrongGroups => sub_DURATION_WRONG_NUMBER_GROUPS
   | .onsetNoDef => sub_ONSET_NO_DEF_TAG_FOUND
+  | .defValueMissing => sub_HED_DEF_VALUE_MISSING
+  | .defValueExtra => sub_HED_DEF_VALUE_EXTRA
+  | .defExpandInvalid => sub_HED_DEF_EXPAND_INVALID
+  | .defExpandValueMissing => sub_HED_DEF_EXPAND_VALUE_MISSING
+  | .defExpandValueExtra => sub_HED_DEF_EXPAND_VALUE_EXTRA
+  | .onsetTooManyDefs => sub_ONSET_TOO_MANY_DEFS
+  | .onsetWrongNumberGroups => sub_ONSET_WRONG_NUMBER_GROUPS
+  | .onsetTagOutsideGroup => sub_ONSET_TAG_OUTSIDE_OF_GROUP
+  | .onsetDefUnmatched => sub_ONSET_DEF_UNMATCHED
+  | .onsetPlaceholderWrong => sub_ONSET_PLACEHOLDER_WRONG
 
 /-- One issue: internal kind, published code (after an `actual_error=` override), severity, and the
 location observables: span of `source_tag` in the text, (`index_in_tag`, `index_in_tag_end`) (for
@@ -211,7 +253,33 @@ structure Variant where
   sortCanonical : Bool := false
   eqFold : Bool := false
   emptyDupSafe : Bool := false
+  /-- `_check_value_class` locates the problem characters of a Def value in the Def tag itself
+  (`_relocate_errors`, fixes/C01_def_value_char_index.diff) instead of shifting indices of the placeholder tag -/
+  defCharRelocate : Bool := false
 deriving Repr, Inhabited
+
+/-! resolved tags (`HedTag`) and resolved tree: plain data -/
+
+structure RTag where
+  span : Nat × Nat
+  org : Str                 -- `org_tag`
+  ns : Str                  -- `_namespace`
+  entry : Option Nat        -- `_schema_entry`
+  extVal : Str              -- `_extension_value` (with its leading slash)
+deriving Repr, DecidableEq, Inhabited
+
+inductive RNode where
+  | tag (t : RTag)
+  | group (span : Nat × Nat) (kids : List RNode)
+deriving Inhabited
+
+/-- one `DefinitionEntry`: case-folded name, takes-value flag, children of the content group (resolved
+against the schema; `[]` = no content) -/
+structure DefEntry where
+  key : Str
+  takes : Bool
+  content : List RNode
+deriving Inhabited
 
 structure Env where
   var : Variant := {}
@@ -222,18 +290,11 @@ structure Env where
   unitClasses : Array Units.UnitClass
   modern : Bool                     -- `schema_83_props`
   cd : CharData
+  defs : List DefEntry := []        -- the definition dictionary (`def_dict`), as data
 
 def Env.attr (env : Env) (i : Nat) : TagAttr := env.attrs[i]?.getD {}
 
 /-! ### resolved tags (`HedTag`) -/
-
-structure RTag where
-  span : Nat × Nat
-  org : Str                 -- `org_tag`
-  ns : Str                  -- `_namespace`
-  entry : Option Nat        -- `_schema_entry`
-  extVal : Str              -- `_extension_value` (with its leading slash)
-deriving Repr, DecidableEq, Inhabited
 
 /-- `str(tag)` = `short_tag` -/
 def strOf (env : Env) (t : RTag) : Str :=
@@ -302,11 +363,6 @@ def tagEq (env : Env) (a b : RTag) : Bool :=
     || fold a.org == fold b.org
 
 /-! ### resolved tree -/
-
-inductive RNode where
-  | tag (t : RTag)
-  | group (span : Nat × Nat) (kids : List RNode)
-deriving Inhabited
 
 mutual
 def resolveNode (env : Env) (text : Str) : Node → RNode
@@ -606,6 +662,42 @@ def valueClassIssues (env : Env) (t : RTag) (sv : Str) : List Issue :=
       if ch == '{' || ch == '}' then subIssue .curlyBrace t (k + start) (k + start + 1)
       else { subIssue .valueClassChar t (k + start) (k + start + 1) with txt := some c }
 
+def findCharAt (ch : Char) : Nat → Str → Option Nat
+  | _, [] => none
+  | i, c :: cs => if c == ch then some i else findCharAt ch (i + 1) cs
+
+/-- `str.find(ch, start)` -/
+def findCharFrom (text : Str) (ch : Char) (start : Nat) : Option Nat := findCharAt ch start (text.drop start)
+
+/-- `_relocate_errors`: successive occurrences in the reported tag, the whole tag for a character not in it -/
+def relocate (text : Str) : Nat → List (Nat × Char) → List (Char × Nat × Nat)
+  | _, [] => []
+  | start, (_, ch) :: es =>
+    match findCharFrom text ch start with
+    | some j => (ch, j, j + 1) :: relocate text (j + 1) es
+    | none => (ch, 0, text.length) :: relocate text start es
+
+/-- `_check_value_class` + `report_value_errors` with `report_as` another tag: classes of `orig`, issues on
+`rep`; index = k + start_index + index_adj = k + find + 1 + len(rep.org_base_tag), or (variant) relocated -/
+def valueClassIssuesAs (env : Env) (orig rep : RTag) (sv : Str) : List Issue :=
+  let a := entryAttr env orig
+  if !a.takesValue then [] else
+  if a.valueClasses.isEmpty then [] else
+  let base := (orgBase rep).length + (match findSub (extension orig) sv with
+    | some k => k + 1
+    | none => 0)
+  if a.valueClasses.any (fun c => wordValid c sv && (problemChars c sv).isEmpty) then [] else
+  a.valueClasses.flatMap fun c =>
+    if !wordValid c sv then
+      [{ subIssue .valueClassValue rep 0 rep.org.length with txt := some c }]
+    else
+      let errs : List (Char × Nat × Nat) :=
+        if env.var.defCharRelocate then relocate rep.org (orgBase rep).length (problemChars c sv)
+        else (problemChars c sv).map fun (k, ch) => (ch, k + base, k + base + 1)
+      errs.map fun (ch, i, j) =>
+        if ch == '{' || ch == '}' then subIssue .curlyBrace rep i j
+        else { subIssue .valueClassChar rep i j with txt := some c }
+
 def tagUnitClasses (env : Env) (t : RTag) : List Units.UnitClass :=
   (entryAttr env t).unitClasses.filterMap fun i => env.unitClasses[i]?
 
@@ -642,14 +734,106 @@ def validateUnits (env : Env) (t : RTag) (text : Str) : List Issue :=
   else if !(extension t).isEmpty then extensionCharIssues env t text
   else []
 
-/-- body of the loop of `_validate_individual_tags_in_hed_string` for one tag (definitions not allowed,
-empty definition dictionary: `validate_def_value_units` returns nothing) -/
+/-! #### declared definitions -/
+
+/-- `self.defs.get(label.casefold())` -/
+def defLookup (env : Env) (label : Str) : Option DefEntry := env.defs.find? (·.key == fold label)
+
+/-- `tag_label, _, placeholder = def_tag.extension.partition('/')` -/
+def defLabel (t : RTag) : Str := (extension t).takeWhile (· != '/')
+def defValue (t : RTag) : Str := ((extension t).dropWhile (· != '/')).drop 1
+
+def replaceHash (v : Str) (s : Str) : Str := s.flatMap fun c => if c == '#' then v else [c]
+
+/-- `HedTag.is_placeholder` -/
+def isPlaceholderTag (t : RTag) : Bool := t.org.contains '#' || t.extVal.contains '#'
+
+/-- `replace_placeholder` -/
+def plugTag (v : Str) (t : RTag) : RTag :=
+  match t.entry with
+  | some _ => { t with extVal := replaceHash v t.extVal }
+  | none => { t with org := replaceHash v t.org }
+
+/- `find_placeholder_tag().replace_placeholder(v)` on a copy of the content: the first placeholder tag -/
+mutual
+def plugNode (v : Str) : RNode → RNode × Bool
+  | .tag t => if isPlaceholderTag t then (.tag (plugTag v t), true) else (.tag t, false)
+  | .group s ks => let r := plugList v ks; (.group s r.1, r.2)
+def plugList (v : Str) : List RNode → List RNode × Bool
+  | [] => ([], false)
+  | k :: ks =>
+    let r := plugNode v k
+    if r.2 then (r.1 :: ks, true) else let rs := plugList v ks; (k :: rs.1, rs.2)
+end
+
+/-- result of `DefinitionEntry.get_definition` -/
+inductive DefExp where
+  | noEntry
+  | mismatch (takes : Bool)        -- returns None: value given xor expected
+  | ok (rest : List RNode)         -- children after the copy of the tag: nothing, or the content group
+deriving Inhabited
+
+def defExpansion (env : Env) (t : RTag) : DefExp :=
+  match defLookup env (defLabel t) with
+  | none => .noEntry
+  | some e =>
+    if e.takes == (defValue t).isEmpty then .mismatch e.takes
+    else if e.content.isEmpty then .ok []
+    else if (defValue t).isEmpty then .ok [.group (0, 0) e.content]
+    else .ok [.group (0, 0) (plugList (defValue t) e.content).1]
+
+/-- the duplication of `check_tag_unit_class_units_are_valid` when an `error_code` is passed -/
+def withErrorCode (code : Str) (l : List Issue) : List Issue :=
+  match l with
+  | [] => []
+  | i :: _ => if l.any (·.code == code) then l else l ++ [{ i with code := code }]
+
+/-- `validate_units(placeholder_tag, text, report_as=def_tag, error_code=code)` -/
+def defUnits (env : Env) (p rep : RTag) (text code : Str) : List Issue :=
+  if text == ['#'] then []
+  else if !(tagUnitClasses env p).isEmpty then
+    withErrorCode code (valueClassIssuesAs env p rep (valueText env p text)
+      ++ (if unitFound env p text then []
+          else [tagIssue (if (strippedText env p text).contains ' ' then .unitsInvalid else .unitsMissing) rep]))
+  else if !(entryAttr env p).valueClasses.isEmpty then valueClassIssuesAs env p rep text
+  else []
+
+/-- the placeholder tag of the expansion, value already substituted -/
+def defPlaceholder (env : Env) (t : RTag) : Option RTag :=
+  match defLookup env (defLabel t) with
+  | none => none
+  | some e =>
+    if e.takes == (defValue t).isEmpty || !e.takes then none
+    else (tagsList (plugList (defValue t) e.content).1).find? isPlaceholderTag
+
+/-- `validate_def_value_units` -/
+def defValueIssues (env : Env) (t : RTag) : List Issue :=
+  match defLookup env (defLabel t) with
+  | none => []
+  | some _ =>
+    valueClassIssues env t (defLabel t)
+    ++ (match defPlaceholder env t with
+        | none => []
+        | some p =>
+          let text := extension p
+          defUnits env p t (if ['#', ' '].isPrefixOf text then text.drop 2 else text)
+            (if shortBase env t == defExpandKey then val_DEF_EXPAND_INVALID else val_DEF_INVALID))
+
+/-- outside the model: the placeholder tag of a used definition has neither unit nor value classes (its value
+would be checked by `check_for_invalid_extension_chars` against a tag of another string) -/
+def defUnmodelled (env : Env) (t : RTag) : Bool :=
+  (shortBase env t == defKey || shortBase env t == defExpandKey) &&
+  match defPlaceholder env t with
+  | none => false
+  | some p => (tagUnitClasses env p).isEmpty && (entryAttr env p).valueClasses.isEmpty && !(extension p).isEmpty
+
+/-- body of the loop of `_validate_individual_tags_in_hed_string` for one tag (definitions not allowed) -/
 def tagSemIssues (env : Env) (ph isDef : Bool) (t : RTag) : List Issue :=
   let sb := shortBase env t
   let ext := extension t
   (if sb == definitionKey then [tagIssue .badDefinitionLocation t] else [])
   ++ individualIssues env ph isDef t
-  ++ (if sb == defKey || sb == defExpandKey then []
+  ++ (if sb == defKey || sb == defExpandKey then defValueIssues env t
       else if sb == definitionKey && ['/', '#'].isSuffixOf ext then validateUnits env t (ext.take (ext.length - 2))
       else if !(ph && ext.contains '#') then validateUnits env t ext
       else [])
@@ -668,19 +852,6 @@ def individualPhase (env : Env) (ph : Bool) (len : Nat) (root : List RNode) : Li
   (allGroups len root).flatMap fun g =>
     let isDef := g.isGroup && defs.any (fun d => listEq env g.kids d)
     (directTags g.kids).flatMap (tagSemIssues env ph isDef)
-
-/-- `_get_def_tags_from_group` + `_validate_def_contents` with no definitions: every located Def /
-Def-expand tag is unmatched -/
-def defIssuesOf (env : Env) : List RNode → List Issue
-  | [] => []
-  | .tag t :: ns => (if shortBase env t == defKey then [tagIssue .defUnmatched t] else []) ++ defIssuesOf env ns
-  | .group _ kids :: ns =>
-    ((directTags kids).filter (fun t => shortBase env t == defExpandKey)).map (tagIssue .defExpandUnmatched)
-      ++ defIssuesOf env ns
-
-/-- `validate_def_tags` (`find_def_tags(recursive=True)`) -/
-def defPhase (env : Env) (len : Nat) (root : List RNode) : List Issue :=
-  (allGroups len root).flatMap fun g => defIssuesOf env g.kids
 
 /-! ### full-string checks -/
 
@@ -845,10 +1016,70 @@ def durationIssues (env : Env) (root : List RNode) : List Issue :=
     else if (directGroups kids).length != 1 then [tagIssue .durationWrongGroups top]
     else []
 
-/-- `validate_onset_offset` with no definitions: a located Def tag would already have been an error of the
-basic checks, so every anchored group lacks its Def -/
+/-- `_validate_def_contents`: `grp` = children of the Def-expand group (`none` for a Def tag) -/
+def defContentIssues (env : Env) (t : RTag) (grp : Option (List RNode)) : List Issue :=
+  match defExpansion env t with
+  | .noEntry => [tagIssue (if grp.isSome then .defExpandUnmatched else .defUnmatched) t]
+  | .mismatch takes =>
+    [tagIssue (if takes then (if grp.isSome then .defExpandValueMissing else .defValueMissing)
+               else (if grp.isSome then .defExpandValueExtra else .defValueExtra)) t]
+  | .ok rest =>
+    match grp with
+    | some kids =>
+      if !listEq env (sortedView env kids) (sortedView env (.tag t :: rest)) then [tagIssue .defExpandInvalid t] else []
+    | none => []
+
+/-- `_get_def_tags_from_group` + `_validate_def_contents` -/
+def defIssuesOf (env : Env) : List RNode → List Issue
+  | [] => []
+  | .tag t :: ns => (if shortBase env t == defKey then defContentIssues env t none else []) ++ defIssuesOf env ns
+  | .group _ kids :: ns =>
+    ((directTags kids).filter (fun t => shortBase env t == defExpandKey)).flatMap
+        (fun t => defContentIssues env t (some kids))
+      ++ defIssuesOf env ns
+
+/-- `validate_def_tags` (`find_def_tags(recursive=True)`) -/
+def defPhase (env : Env) (len : Nat) (root : List RNode) : List Issue :=
+  (allGroups len root).flatMap fun g => defIssuesOf env g.kids
+
+def nodeSpan : RNode → Nat × Nat
+  | .tag t => t.span
+  | .group s _ => s
+
+/-- `found_group.find_def_tags()`: (def tag, span of the Def tag itself / of its Def-expand group) -/
+def defItemsOf (env : Env) : List RNode → List (RTag × (Nat × Nat))
+  | [] => []
+  | .tag t :: ns => (if shortBase env t == defKey then [(t, t.span)] else []) ++ defItemsOf env ns
+  | .group s kids :: ns =>
+    ((directTags kids).filter (fun t => shortBase env t == defExpandKey)).map (fun t => (t, s)) ++ defItemsOf env ns
+
+/-- `_handle_onset_or_offset` -/
+def onsetDefIssues (env : Env) (dt : RTag) : List Issue :=
+  match defLookup env (defLabel dt) with
+  | none => [tagIssue .onsetDefUnmatched dt]
+  | some e => if e.takes != !(defValue dt).isEmpty then [tagIssue .onsetPlaceholderWrong dt] else []
+
+/-- body of the loop of `validate_onset_offset` for one anchored top-level group -/
+def onsetGroupIssues (env : Env) (onset : RTag) (kids : List RNode) : List Issue :=
+  match defItemsOf env kids with
+  | [] => [tagIssue .onsetNoDef onset]
+  | [(dt, dspan)] =>
+    let children := kids.filter fun c => nodeSpan c != dspan && nodeSpan c != onset.span
+    let children := children.filter fun c => match c with
+      | .tag t => shortBase env t != delayKey
+      | .group _ _ => true
+    if children.length > (if shortBase env onset == offsetKey then 0 else 1) then
+      [tagIssue .onsetWrongNumberGroups dt]
+    else
+      (match children with
+        | .tag c :: _ => [tagIssue .onsetTagOutsideGroup c]
+        | _ => [])
+      ++ onsetDefIssues env dt
+  | (dt, _) :: _ :: _ => [tagIssue .onsetTooManyDefs dt]
+
+/-- `validate_onset_offset` -/
 def onsetIssues (env : Env) (root : List RNode) : List Issue :=
-  (topLevelAnchored env temporalKeys root).map fun (t, _, _) => tagIssue .onsetNoDef t
+  (topLevelAnchored env temporalKeys root).flatMap fun (t, _, kids) => onsetGroupIssues env t kids
 
 /-- `run_full_string_checks` -/
 def fullPhase (env : Env) (len : Nat) (root : List RNode) : List Issue :=
@@ -918,6 +1149,7 @@ def raises (env : Env) (ph : Bool) (text : Str) : Bool := raisesP env ph text (p
 could not turn into ranges -/
 def unmodelledP (env : Env) (p : Parsed) : Bool :=
   (tagsList p.root1).any fun t =>
+    defUnmodelled env t ||
     (entryAttr env t).valueClasses.any fun c =>
       match classChars.find? (·.1 == c) with
       | some (_, ccs) => ccs.contains .unsupported
